@@ -42,6 +42,7 @@ THEOREMS = [
     "BeyondVerif.C08.numerical_iter_dates_range_backward",
     "BeyondVerif.C08.numIter_eq_numCore",
     "BeyondVerif.C08.numerical_iter_dates_forward",
+    "BeyondVerif.C08.numerical_iter_dates_forward_default_partial",
     "BeyondVerif.C08.numerical_iter_dates_backward",
     "BeyondVerif.C08.numerical_iter_dates_list",
     "BeyondVerif.C08.boundVal_bind",
@@ -54,6 +55,9 @@ THEOREMS = [
     "BeyondVerif.C08.iter_eq_map_propagate",
     "BeyondVerif.C08.ident_table_matches",
     "BeyondVerif.C08.order_matches",
+    "BeyondVerif.C08.step_test_matches",
+    "BeyondVerif.C08W.numerical_default_step_raw_points",
+    "BeyondVerif.C08W.numerical_value_test_raw_points",
     "BeyondVerif.C08W.numerical_nothing_beyond_stop",
     "BeyondVerif.C08W.numerical_nothing_beyond_stop_step",
     "BeyondVerif.C08W.numerical_short_span_resampled",
@@ -79,7 +83,10 @@ LEVEL_TEXT = ("Lean theorems over an integer-microsecond model of Date.range, An
               "numerical: KeplerNum; ephemeris), for all epochs, starts, stops (date or timedelta), steps of either sign (dividing the span or not; absent = "
               "integration step for KeplerNum), with or without listeners: the iterator yields exactly start + k*step, k = 0..floor(|stop-start|/|step|), in order, "
               "none beyond stop, forward (step > 0) and backward (step flipped or negative) - iter_dates_forward/backward, numerical_iter_dates_forward/backward "
-              "(any span however short, stop on or off the integration grid), ephem_iter_dates_forward/backward (start, stop inside the tabulated span; outside it: "
+              "(EVERY integration method: the lengths of the integration steps are a universally quantified parameter, so euler, rk4 and the adaptive rkf54, dopri54 "
+              "are covered; any span however short, stop on or off the integration grid; an explicit step of ANY value, the propagator's own included - the test "
+              "`step is self.step` is read from the AST as an identity test, step_test_matches; the DEFAULT step forward only for the fixed-step methods, "
+              "numerical_iter_dates_forward_default_partial: for the adaptive ones the code yields the raw integration points, kernel-decided counter-witness, open finding), ephem_iter_dates_forward/backward (start, stop inside the tabulated span; outside it: "
               "refused when strict, ephem_iter_strict_*_refused, clamped to the span otherwise, ephem_iter_clamped_forward/backward; without step: exactly the tabulated "
               "dates within the range for sorted points, ephem_iter_own_sorted / _backward_sorted), by "
               "induction over the loops; explicit lists are yielded as given, the empty list yields nothing (iter_dates_list, numerical_iter_dates_list, "
@@ -95,7 +102,7 @@ LEVEL_NOTE = ("model hand-written (control flow), tied by exact correspondence; 
               "(inputs on a 0.125 s grid where the float arithmetic is exact; date arithmetic itself is C03's); yielded STATES are abstract in the model "
               "(f(orbit value, date)) and compared on the real API by the oracle only; the numerical theorems take as a parameter any number m of integration steps "
               "that reach stop and fill the interpolation order and assume fuel > m (fuel bounds the model's loops only; the code has no bound); 9 findings fixed in "
-              "/repo are kept as regression families and kernel-decided regression witnesses; no clause of the property is known to be false of the current code; "
+              "/repo are kept as regression families and kernel-decided regression witnesses; 1 clause is false of the current code (adaptive KeplerNum, default step, forward: open finding C08-num-adaptive-default-step, proposed_fixes/C08-i-keplernum-adaptive-default-step.diff); "
               "Lean kernel + propext/Classical.choice/Quot.sound")
 TECHNIQUE = "Lean 4 proof by induction over the iteration loops and over call histories + kernel decide regression witnesses; exact model/implementation correspondence"
 TRUSTED = [
@@ -106,7 +113,7 @@ TRUSTED = [
 ASSUMPTIONS = [
     "Model/Iter.lean is hand-written; it is tied to base.py, keplernum.py, sgp4.py, ephem.py, orbit.py, date.py, listeners.py by the exact correspondence run only",
     "dates are exact integers (microseconds) in the model; the implementation adds float seconds - exact on the generated 0.125 s grid, not in general (C03)",
-    "KeplerNum with a fixed-step method (rk4/euler) and self.step > 0: real_step == self.step; adaptive methods change the internal grid and are not modelled; `real_steps=True` is not modelled",
+    "KeplerNum: the integration itself is not modelled; the LENGTHS of the integration steps of the main loop are a parameter `rs` of the model (theorems: for all rs; correspondence: the lengths the real propagator took, recorded by a wrapper around KeplerNum._make_step, are handed to the model - all equal to self.step for euler / rk4, shortened by the step-size control for rkf54 / dopri54); self.step > 0; `real_steps=True` is not modelled",
     "Ephem(points) sorts by date: modelled as the reversal of the (descending) list a backward integration produces",
     "the positioning of KeplerNum at `start` (extrapolation / retropolation from the epoch padded to DEFAULT_ORDER points, one interpolation) always succeeds and only its date enters the model",
     "Sgp4 compares (tobytes, date, form, frame, bstar, ndot, ndotdot) of the bound orbit with what its record was computed from: modelled as a relation World.sameState on abstract orbit values (in the correspondence: equality of (object, number of element changes, number of drag-term changes))",
@@ -120,9 +127,11 @@ NOT_COVERED = [
     "resuming a suspended generator after another orbit was bound to the same shared propagator follows the LAST bound orbit (AnalyticalPropagator.iter reads self.orbit lazily) - outside the atomic-call assumption",
     "a failing Sgp4 binding (Tle.from_orbit raises): since c604b3e the setter binds only after success; binding failures are not in the model",
     "inputs outside the quantifier, modelled and in the correspondence but without theorem: a forward range with a negative step (analytical: ValueError at once, iter_incoherent; Ephem and KeplerNum: dates until the span is left, then ValueError); step = 0 (analytical: ValueError; Ephem / KeplerNum forward: never terminates, both sides stop at the cap; KeplerNum backward: ValueError); KeplerNum.iter(start=None): AttributeError",
+    "'the objects handed out do not alias what the receiver is made of' (mutating a yielded / returned state in place must not change the orbit, the points of an ephemeris, or what the same call returns next) has no counterpart in the model (states are abstract values): oracle only, over every branch of Ephem.iter (dates on / between nodes, DateRange both directions, step forward / backward on and off nodes, own points forward / backward / all), Ephem.propagate / interpolate on and between nodes, and iter / propagate of every propagator incl. KeplerNum with each method (families <kind>-alias-<branch>-*)",
     "event search (_bisect) is C10's; listeners enter here only through clear_listeners / Listener.prev / the number of events found per call",
 ]
-OPEN = ["Ephem.iter with start and/or stop ABSENT (defaults: the ends of the tabulated span) has no theorem of its own (modelled, in the correspondence); the clamping theorems (strict=False) are stated for a stop given as a date, not as a timedelta (which the code resolves from the unclamped start)",
+OPEN = ["numerical_iter_dates_forward_default_partial: with the DEFAULT step (absent / None / propagator.step itself) the forward contract is proved for fixed-step methods only (all rs = h). The excluded case - adaptive rkf54 / dopri54 - is a genuine failure of the current code (Witness numerical_default_step_raw_points, known finding C08-num-adaptive-default-step, proposed_fixes/C08-i-keplernum-adaptive-default-step.diff)",
+        "Ephem.iter with start and/or stop ABSENT (defaults: the ends of the tabulated span) has no theorem of its own (modelled, in the correspondence); the clamping theorems (strict=False) are stated for a stop given as a date, not as a timedelta (which the code resolves from the unclamped start)",
         "an exclusive BACKWARD DateRange is covered by iter_dates_range / ephem_iter_dates_range / numerical_iter_dates_range_backward (the iterator yields exactly what the object yields, rangeRun) but rangeRun itself is characterised as a grid only for inclusive ranges and exclusive forward ranges"]
 RULE = ("correspondence: per propagator kind (sgp4, kepler, j2, none, num, cw, ephem) random keyword combinations of iter (start absent/None/before/at/after epoch, "
         "stop date/timedelta/absent, step absent/None/positive/negative/zero, dates list (empty, unordered, repeated) / DateRange (both directions), strict, backward "
@@ -131,7 +140,8 @@ RULE = ("correspondence: per propagator kind (sgp4, kepler, j2, none, num, cw, e
         "dates and DateRange forms; in-place modifications of the orbits between calls: their elements, for Sgp4 also their drag term B* and - oracle only - their name / catalogue number / counters), the trace compared being dates, end kind, bound orbit, number of re-bindings, "
         "number of events, Listener.prev and WHOSE trajectory (orbit object, number of modifications seen) the returned state lies on; non-trivial = >= 2 dates yielded "
         "resp. >= 2 calls; distinct = distinct request line. "
-        "oracle: the contract list start + k*step on the real API for all 7 kinds both directions, yielded state == direct propagate from fresh objects, "
+        "numerical propagator: every method (euler, rk4, rkf54, dopri54), step absent / None / propagator.step itself / an equal-valued object / smaller / larger / incommensurate. "
+        "oracle: the contract list start + k*step on the real API for all 7 kinds both directions (KeplerNum: every method and step form, directed cases on every seed), aliasing of the returned objects, yielded state == direct propagate from fresh objects, "
         "explicit lists, histories vs fresh objects (bitwise), receiver snapshots; first of all, on every seed, the directed histories of the findings this property "
         "has had (propagate / modify / propagate, two orbits on one propagator, listeners re-used over explicit dates)")
 U = 125_000            # grid of the generated dates, in microseconds (0.125 s: exact in the float seconds of Date)
@@ -179,11 +189,13 @@ def us_of(date, e):
 class World:
     """the objects one case works on: orbits (sharing ONE propagator object), or one Ephem; two listeners"""
 
-    def __init__(self, kind, h=60 * 8 * U, npts=12, elems=None, order=None, silent_listeners=False):
+    def __init__(self, kind, h=60 * 8 * U, npts=12, elems=None, order=None, silent_listeners=False, method="rk4"):
         from beyond.orbits import Orbit
         from beyond.propagators.listeners import NodeListener, ApsideListener, Listener
         self.kind = kind
         self.h = h
+        self.method = method
+        self.steps = []          # numerical propagator: (date, real step) of every integration step taken, in microseconds
         self.e = epoch()
         el = list(elems or [7.0e6, 0.01, 0.9, 1.0, 2.0, 3.0])
         # the second orbit differs from the first in EVERY element (a stale quantity derived from any of them shows)
@@ -223,7 +235,14 @@ class World:
             if kind == "num":
                 from beyond.propagators.keplernum import KeplerNum
                 from beyond.env.solarsystem import get_body
-                p = KeplerNum(td(h), get_body("Earth"))
+                p = KeplerNum(td(h), get_body("Earth"), method=method)
+                inner, e0_, log = p._make_step, self.e, self.steps
+
+                def logged(orb, step):
+                    r = inner(orb, step)
+                    log.append((us_of(orb.date, e0_), round(r[0].total_seconds() * 1e6)))
+                    return r
+                p._make_step = logged
             else:
                 p = {"kepler": Kepler, "j2": J2, "none": NonePropagator}[kind]()
             form = "keplerian" if kind in ("num", "none") else "keplerian_mean"
@@ -287,7 +306,9 @@ class World:
         if "stopdelta" in a:
             kw["stop"] = td(a["stopdelta"])
         if "step" in a:
-            kw["step"] = None if a["step"] is None else td(a["step"])
+            kw["step"] = None if a["step"] is None else td(a["step"])     # an object of the caller's own, whatever its value
+            if a.get("stepobj") == "same":
+                kw["step"] = self.prop.step                                # the propagator's own step object
         if "dates" in a:
             kw["dates"] = [self.date(x) for x in a["dates"]]
         if "range" in a:
@@ -389,14 +410,39 @@ def setter_keeps_object(fn, cls):
     raise RuntimeError(f"class {cls} not found in {fn}")
 
 
+def step_test_is_identity():
+    """how `KeplerNum._iter` recognises that the caller asked for no sampling of its own: the statement
+    `if step <op> self.step: step = None` - True for `is`, False for `==`; anything else is an error"""
+    src = open(os.path.join(core.REPO, "beyond", "propagators", "keplernum.py")).read()
+    found = []
+    for node in ast.walk(ast.parse(src)):
+        if isinstance(node, ast.FunctionDef) and node.name == "_iter":
+            for st in ast.walk(node):
+                if (isinstance(st, ast.If) and isinstance(st.test, ast.Compare) and len(st.test.ops) == 1
+                        and isinstance(st.test.left, ast.Name) and st.test.left.id == "step"
+                        and isinstance(st.test.comparators[0], ast.Attribute) and st.test.comparators[0].attr == "step"
+                        and isinstance(st.test.comparators[0].value, ast.Name) and st.test.comparators[0].value.id == "self"
+                        and len(st.body) == 1 and isinstance(st.body[0], ast.Assign) and getattr(st.body[0].targets[0], "id", None) == "step"
+                        and isinstance(st.body[0].value, ast.Constant) and st.body[0].value.value is None and not st.orelse):
+                    found.append(type(st.test.ops[0]))
+    if found == [ast.Is]:
+        return True
+    if found == [ast.Eq]:
+        return False
+    raise RuntimeError(f"KeplerNum._iter: the test `if step is self.step: step = None` was not found in the shape the model knows ({found})")
+
+
 def extract(ctx):
     order = order_of_source()
+    ident = step_test_is_identity()
     rows = [(k, setter_keeps_object(fn, cls)) for k, fn, cls in SETTERS] + [("ephem", False)]
     txt = ("/- GENERATED by harness/props/C08.py from beyond/orbits/ephem.py and beyond/propagators/*.py on every run -/\n"
            "namespace BeyondVerif.Generated\n"
            f"/-- `Ephem.DEFAULT_ORDER` -/\ndef ephemDefaultOrder : Nat := {order}\n"
            "/-- does the `orbit` setter of the propagator keep the very object it is given (true) or a converted copy (false) -/\n"
            "def orbitSetterKeepsObject : List (String × Bool) := [" + ", ".join(f'("{k}", {"true" if v else "false"})' for k, v in rows) + "]\n"
+           "/-- `KeplerNum._iter`: `if step is self.step: step = None` tests identity (true) rather than equality of values (false) -/\n"
+           f"def numStepTestIsIdentity : Bool := {'true' if ident else 'false'}\n"
            "end BeyondVerif.Generated\n")
     ch = core.write_if_changed(os.path.join(core.LEAN, "BeyondVerif", "Generated", "IterConst.lean"), txt)
     return ["Generated/IterConst.lean"] if ch else []
@@ -421,7 +467,8 @@ def enc_args(a):
         dates = "R:" + ",".join(str(int(x)) for x in a["range"])
     else:
         dates = "-"
-    return f"start={oo('start')};stop={stop};step={oo('step')};dates={dates};strict={0 if a.get('strict') is False else 1}"
+    step = "S" if a.get("stepobj") == "same" else oo("step")
+    return f"start={oo('start')};stop={stop};step={step};dates={dates};strict={0 if a.get('strict') is False else 1}"
 
 
 def gen_args(rng, kind, h, npts):
@@ -495,10 +542,32 @@ def gen_args(rng, kind, h, npts):
     return a
 
 
+def main_steps(log, a, order):
+    """lengths of the integration steps of the MAIN loop of KeplerNum._iter, out of the log of all the steps it took: the first
+    ones position the state at `start` (from the epoch until start is passed, then padded to `order` points), which the model
+    does not describe (only the date `start` they end in)"""
+    if "dates" in a:
+        start = min(a["dates"]) if a["dates"] else 0
+    elif "range" in a:
+        start = a["range"][0]
+    else:
+        start = a.get("start") or 0
+    i = 0
+    if start != 0 and log:
+        date, n = 0, 1
+        while i < len(log) and ((date < start) if start > 0 else (date > start)):
+            date += log[i][1]
+            i += 1
+            n += 1
+        i += max(0, order - n)
+    return [abs(x[1]) for x in log[i:]]
+
+
 def real_iter_line(kind, h, npts, a, order):
-    w = World(kind, h=h, npts=npts)
+    """-> (dates and end kind, lengths of the integration steps of the main loop)"""
+    w = World(kind, h=h, npts=npts, method=a.get("_method", "rk4"))
     got, fin, _ = w.run_iter(0, a, limit=CAP)
-    return ",".join(str(x) for x in got) + " " + fin
+    return ",".join(str(x) for x in got) + " " + fin, main_steps(w.steps, a, order)
 
 
 def enc_call(c):
@@ -620,12 +689,28 @@ def correspondence(ctx):
     for kind in KINDS:
         # the histories of the findings this property has had, on every seed
         for calls in directed_histories(kind, 60 * 8 * U, 12):
-            cases.append(("hist", kind, 60 * 8 * U, 12, calls, f"c08hist {kind} {CAP} {order} {60 * 8 * U} 12 2 " + " ".join(enc_call(c) for c in calls)))
+            cases.append(("hist", kind, 60 * 8 * U, 12, calls, f"c08hist {kind} {CAP} {order} {60 * 8 * U} 12 2 " + " ".join(enc_call(c) for c in calls), None))
         for _ in range(ctx.n(250, 6000)):
             h = rng.choice([60, 60, 30, 10]) * 8 * U
             npts = rng.choice([1, 3, 7, 8, 9, 12, 20]) if kind == "ephem" else 12
             a = gen_args(rng, kind, h, npts)
-            cases.append(("iter", kind, h, npts, a, f"c08iter {kind} {CAP} {order} {h} {npts} {enc_args(a)}"))
+            rs = "-"
+            real = None
+            if kind == "num":
+                # every integration method (the adaptive ones shorten their steps on the fly: the lengths of the steps the real
+                # propagator took are given to the model), the default step in its three forms, an explicit step of the same value
+                a["_method"] = rng.choice(["rk4", "euler", "rkf54", "rkf54", "dopri54", "dopri54"])
+                if "dates" not in a and "range" not in a:
+                    q = rng.random()
+                    if q < 0.15:
+                        a["step"], a["stepobj"] = h, "same"
+                    elif q < 0.35:
+                        a["step"] = h
+                    elif q < 0.45:
+                        a["step"] = rng.choice([2 * h, h // 2, 3 * h // 2 + U])
+                real, steps = real_iter_line(kind, h, npts, a, order)
+                rs = ",".join(str(x) for x in steps) if steps else "-"
+            cases.append(("iter", kind, h, npts, a, f"c08iter {kind} {CAP} {order} {h} {npts} {enc_args(a)} {rs}", real))
         for _ in range(ctx.n(60, 2500)):
             h = 60 * 8 * U
             npts = rng.choice([9, 12])
@@ -638,14 +723,16 @@ def correspondence(ctx):
                 else:
                     c = gen_call(rng, kind, h, npts, n_orb)
                 calls.append(c)
-            cases.append(("hist", kind, h, npts, calls, f"c08hist {kind} {CAP} {order} {h} {npts} 2 " + " ".join(enc_call(c) for c in calls)))
+            cases.append(("hist", kind, h, npts, calls, f"c08hist {kind} {CAP} {order} {h} {npts} 2 " + " ".join(enc_call(c) for c in calls), None))
     model = core.Driver(ID).run([c[5] for c in cases])
-    for (what, kind, h, npts, x, line), m in zip(cases, model):
+    for (what, kind, h, npts, x, line, real), m in zip(cases, model):
         if what == "iter":
-            real = real_iter_line(kind, h, npts, x, order)
+            if real is None:
+                real = real_iter_line(kind, h, npts, x, order)[0]
             end = real.split(" ")[-1]
             out.count(key=line, nontrivial=real.count(",") >= 1, kind=f"iter-{kind}", end=end,
-                      args="dates" if "dates" in x else ("range" if "range" in x else "start-stop-step"))
+                      args="dates" if "dates" in x else ("range" if "range" in x else "start-stop-step"),
+                      **({"method": x["_method"], "step": step_form(x, h)} if kind == "num" else {}))
             fam = f"model-iter-{kind}"
         else:
             real = real_trace(kind, h, npts, x)
@@ -658,6 +745,14 @@ def correspondence(ctx):
 
 
 # ---------------------------------------------------------------- oracle
+
+def step_form(a, h):
+    """how the step of a numerical iteration is given: default (absent / None / the propagator's own step object), or an explicit
+    object of the caller: equal in value to the propagator's step, or not"""
+    if a.get("step") is None or a.get("stepobj") == "same":
+        return "default-step"
+    return "explicit-equal-step" if abs(a["step"]) == h else "explicit-step"
+
 
 def internal_points(start, stop, h):
     """number of states KeplerNum._iter tabulates for a forward range: start, start+h, ... until >= stop"""
@@ -680,6 +775,13 @@ def classify(kind, a, h, order, npts, got, fin, exp):
         sym = "yields-nothing" if not got else "stops-early"
     else:
         sym = "wrong-dates"
+    if kind == "num" and a.get("_method", "rk4") in ("rkf54", "dopri54") and not sym.startswith("raises"):
+        # adaptive step-size control: the integration points are not the requested dates. Dates within [start, stop] that are
+        # not the requested ones are one symptom (more, fewer or other dates according to the span), dates beyond stop another
+        inside = all((start <= x <= stop) if direction == "fwd" else (stop <= x <= start) for x in got)
+        if fin == "done" and inside:
+            sym = "wrong-dates"
+        return f"num-iter-{direction}-adaptive-{step_form(a, h)}-{sym}"
     if kind == "num" and direction == "fwd" and sym.startswith("raises"):
         stepc = "step" if a.get("step") is not None else "nostep"
         spanc = "short" if internal_points(start, stop, h) < order else "long"
@@ -723,7 +825,7 @@ def check_iter(out, w, a, order, npts, states=True):
         start = 0
     stop = a["stop"] if "stop" in a else start + a["stopdelta"]
     step = a["step"] if a.get("step") is not None else w.h
-    a = dict(a, _start=start, _stop=stop)
+    a = dict(a, _start=start, _stop=stop, _method=w.method)
     exp = expected_dates(start, stop, step)
     got, fin, orbs = w.run_iter(0, a)
     direction = "fwd" if stop >= start else "bwd"
@@ -731,6 +833,8 @@ def check_iter(out, w, a, order, npts, states=True):
               divides="divides" if (stop - start) % abs(step) == 0 else "off-grid", start="at-epoch" if start == 0 else ("after" if start > 0 else "before"))
     pub = {k: v for k, v in a.items() if not k.startswith("_")}
     inp = {"check": "iter", "kind": kind, "h": w.h, "npts": npts, "args": pub}
+    if kind == "num":
+        inp["method"] = w.method
     if kind == "ephem" and npts < order and a.get("step") is not None:
         # documented: Ephem.interpolate raises ValueError when the order of interpolation is insufficient
         if (got, fin) != ([], "value-error"):
@@ -745,8 +849,8 @@ def check_iter(out, w, a, order, npts, states=True):
     if states:
         # each yielded state equals a direct propagation to that date, from fresh objects
         import numpy as np
-        f = World(kind, h=w.h, npts=npts)
-        tol_p, tol_v = (1.0, 1e-3) if kind == "num" else (0.0, 0.0)   # num: two RK4 paths to the same date (convergence is C06's)
+        f = World(kind, h=w.h, npts=npts, method=w.method)
+        tol_p, tol_v = (1.0, 1e-3) if kind == "num" else (0.0, 0.0)   # num: two integration paths to the same date (convergence is C06's)
         for d, o in list(zip(got, orbs))[:: max(1, len(got) // 6)]:
             try:
                 r = f.orbits[0].propagate(f.date(d))
@@ -929,7 +1033,102 @@ def directed_histories(kind, h, npts, ids=False):
     return out
 
 
+def mutate(o):
+    """what a consumer may do with a state it has been handed: convert it in place (the idiom of the documentation), overwrite
+    its coordinates"""
+    try:
+        o.form = "cartesian" if str(o.form) == "spherical" else "spherical"
+    except Exception:  # noqa: BLE001 — a conversion that is not possible for this object is not the point here
+        pass
+    o[:3] = 1.0
+    o[3:] = -2.0
+
+
+def canon(objs):
+    return tuple((o.tobytes(), o.date._mjd, str(o.form), str(o.frame)) for o in objs)
+
+
+def check_alias(out, kind, h, npts, branch, call, method="rk4"):
+    """'the initial orbit / ephemeris object is never modified': the objects a call hands out do not alias what the receiver is
+    made of. The call is made, every object it returned is modified in place, the receiver is looked at and the call made again."""
+    w = World(kind, h=h, npts=npts, method=method)
+    inp = {"check": "alias", "kind": kind, "h": h, "npts": npts, "branch": branch, "call": call, "method": method}
+
+    def run():
+        if call["op"] == "propagate":
+            return [w.orbits[0].propagate(w.date(call["date"]))]
+        if call["op"] == "interpolate":
+            return [w.eph.interpolate(w.date(call["date"]))]
+        if call["op"] == "getitem":
+            return list(w.eph.iter())       # the documented way to get copies of the recorded points
+        return w.run_iter(0, call["args"], events=True)[2]
+    out.count(key=(kind, branch, method), nontrivial=True, kind="alias-" + kind, branch=branch)
+    snap = w.snapshot()
+    try:
+        first = run()
+        t1 = canon(first)
+        for o in first:
+            mutate(o)
+        if w.snapshot() != snap:
+            out.fail(f"{kind}-alias-{branch}-receiver-modified", "modifying in place the states a call returned modified the orbit / the points of the ephemeris it was called on",
+                     inp, observed=[x[2:] for x in w.snapshot()][:6], expected=[x[2:] for x in snap][:6])
+            return
+        t2 = canon(run())
+    except Exception as ex:  # noqa: BLE001
+        out.fail(f"{kind}-alias-{branch}-raises-{err_kind(ex)}", "the call, made again after its first results were modified in place, raises", inp, observed=repr(ex)[:200])
+        return
+    if t1 != t2:
+        out.fail(f"{kind}-alias-{branch}-second-result-differs", "the same call returns something else after its first results were modified in place",
+                 inp, observed=[(x[1], x[2], x[3]) for x in t2][:6], expected=[(x[1], x[2], x[3]) for x in t1][:6])
+
+
+def alias_calls(kind, h, npts):
+    """(branch, call) for every way a state is handed out"""
+    inside = (npts - 1) * h
+    it = lambda **kw: {"op": "iter", "args": kw}                                                 # noqa: E731
+    if kind == "ephem":
+        return [("dates-on-nodes", it(dates=[0, 2 * h, 3 * h, inside])), ("dates-between-nodes", it(dates=[h // 2, 2 * h + U])),
+                ("daterange-on-nodes", it(range=[h, 5 * h, h, True])), ("daterange-backward", it(range=[5 * h, h, -h, True])),
+                ("step-forward-on-nodes", it(start=0, stop=4 * h, step=h)), ("step-forward", it(start=U, stop=4 * h, step=h // 2 + U)),
+                ("step-backward-on-nodes", it(start=5 * h, stop=h, step=h)), ("step-backward", it(start=5 * h, stop=h + U, step=-(h // 2 + U))),
+                ("own-forward", it(start=h, stop=5 * h)), ("own-backward", it(start=5 * h, stop=h)), ("own-all", it()),
+                ("propagate-node", {"op": "propagate", "date": 3 * h}), ("propagate-between", {"op": "propagate", "date": 3 * h + U}),
+                ("interpolate-node", {"op": "interpolate", "date": 2 * h}), ("iter-copies", {"op": "getitem"})]
+    calls = [("step-forward", it(start=0, stop=4 * h, step=h)), ("step-backward", it(stop=-3 * h, step=h // 2 + U)),
+             ("dates", it(dates=[0, 2 * h, -h, h // 2])), ("propagate-epoch", {"op": "propagate", "date": 0}),
+             ("propagate", {"op": "propagate", "date": 3 * h + U})]
+    if kind == "num":
+        calls += [("default-step", it(stop=4 * h)), ("default-step-backward", it(stop=-4 * h)), ("daterange", it(range=[-h, 3 * h, h, True])),
+                  ("short-span", it(stop=2 * h, step=h // 2))]
+    return calls
+
+
+def directed_iters(kind, h):
+    """numerical propagator: the default step in its three forms and explicit steps equal to / smaller than / larger than /
+    incommensurate with the propagator's, forward and backward, on every seed (the integration method is varied by the caller)"""
+    out = []
+    for stop in (5 * h + 7 * 8 * U, -(4 * h + 3 * 8 * U)):
+        out += [{"stopdelta": stop}, {"stopdelta": stop, "step": None}, {"stopdelta": stop, "step": h, "stepobj": "same"},
+                {"stopdelta": stop, "step": h}, {"stopdelta": stop, "step": h // 2}, {"stopdelta": stop, "step": 2 * h},
+                {"stopdelta": stop, "step": 7 * h // 8 + U}, {"start": 3 * h + U, "stop": 3 * h + U + stop, "step": h}]
+    return out
+
+
 def oracle(ctx, widened):
+    """widened: the sample of the quick tier first; the tenfold sample only when that has not already produced a failing input
+    that is not a known finding (a report as early as possible)"""
+    if widened and not ctx.thorough:
+        out = _oracle(ctx, False)
+        known = core.load_known()
+        if any(core.match_known(ID, f, known) is None for f in out.failures):
+            return out
+        big = _oracle(ctx, True)
+        big.failures = out.failures + big.failures
+        return big
+    return _oracle(ctx, widened)
+
+
+def _oracle(ctx, widened):
     out = Outcome()
     rng = ctx.rng
     big = widened or ctx.thorough
@@ -938,22 +1137,44 @@ def oracle(ctx, widened):
     for kind in KINDS:
         for calls in directed_histories(kind, 60 * 8 * U, 12, ids=True):
             check_history(out, kind, 60 * 8 * U, 12, calls)
+        for branch, call in alias_calls(kind, 60 * 8 * U, 12):
+            check_alias(out, kind, 60 * 8 * U, 12, branch, call)
+    for method in ("euler", "rk4", "rkf54", "dopri54"):
+        for a in directed_iters("num", 60 * 8 * U):
+            check_iter(out, World("num", h=60 * 8 * U, method=method), a, order, 12, states=False)
+        if method != "rk4":
+            for branch, call in alias_calls("num", 60 * 8 * U, 12)[:3]:
+                check_alias(out, "num", 60 * 8 * U, 12, branch, call, method=method)
     for kind in KINDS:
         for i in range(n_iter):
             h = rng.choice([60, 60, 30, 10]) * 8 * U
             npts = rng.choice([3, 5, 8, 9, 12, 20]) if kind == "ephem" else 12
             if kind == "ephem" and i % 2 == 0:
                 npts = rng.choice([8, 9, 12, 20])
-            w = World(kind, h=h, npts=npts)
+            method = "rk4"
             start, stop, step = gen_range(rng, kind, h, npts)
             a = {"stop": stop, "step": step}
             if start != 0 or kind == "ephem" or rng.random() < 0.5:
                 a["start"] = start
-            if kind == "num" and rng.random() < 0.25:
-                del a["step"]
+            if kind == "num":
+                # every integration method; the default step in its three forms (absent, None, the propagator's own object);
+                # explicit steps equal to, smaller than, larger than, incommensurate with the propagator's step
+                method = rng.choice(["rk4", "euler", "rkf54", "dopri54"])
+                if method != "rk4" and rng.random() < 0.5:
+                    h = rng.choice([60, 120]) * 8 * U          # where the step-size control of the adaptive methods acts
+                q = rng.random()
+                if q < 0.15:
+                    del a["step"]
+                elif q < 0.22:
+                    a["step"] = None
+                elif q < 0.32:
+                    a["step"], a["stepobj"] = h, "same"
+                elif q < 0.5:
+                    a["step"] = h
+            w = World(kind, h=h, npts=npts, method=method)
             if kind != "ephem" and rng.random() < 0.2:
                 a["stopdelta"] = a.pop("stop") - start
-            check_iter(out, w, a, order, npts, states=(i % 4 == 0))
+            check_iter(out, w, a, order, npts, states=(i % 4 == 0 and method != "euler"))   # two Euler paths differ by O(h): C06
         # explicit lists of dates
         for i in range(n_iter // 2):
             h = 60 * 8 * U
@@ -983,9 +1204,11 @@ def replay(f):
     i = f["input"]
     order = order_of_source()
     if i.get("check") == "iter":
-        check_iter(out, World(i["kind"], h=i["h"], npts=i["npts"]), i["args"], order, i["npts"])
+        check_iter(out, World(i["kind"], h=i["h"], npts=i["npts"], method=i.get("method", "rk4")), i["args"], order, i["npts"])
     elif i.get("check") == "dates":
         check_dates_list(out, World(i["kind"], h=i["h"], npts=i["npts"]), i["dates"], i["npts"], order)
     elif i.get("check") == "history":
         check_history(out, i["kind"], i["h"], i["npts"], i["calls"])
+    elif i.get("check") == "alias":
+        check_alias(out, i["kind"], i["h"], i["npts"], i["branch"], i["call"], method=i.get("method", "rk4"))
     return out
